@@ -159,6 +159,7 @@ class DataboxWorld(World):
     def step_handles(self, step):
         a = step.get("args", {})
         hs = [a[k] for k in ("box", "other", "src_box", "d") if isinstance(a.get(k), str)]
+        hs.extend(x for x in (a.get("others") or []) if isinstance(x, str))
         hs.extend(step.get("out", []) or [])
         return tuple(hs)
 
@@ -567,11 +568,26 @@ class DataboxWorld(World):
         return {"op": "prepend", "args": {"box": b, "other": o, "freq": f, "end": self.cfg["bases"][f] + rng.randint(-4, 5)}}
 
     def _gen_merge(self, actor, rng, val, flt):
-        b = self._own_box(rng, actor)
-        o = self._any_box(rng, actor, exclude=b)
-        if b is None or o is None:
+        by = rng.random() < 0.2
+        b = None if by else self._own_box(rng, actor)
+        if not by and b is None:
             return None
-        return {"op": "merge", "args": {"box": b, "other": o, "strategy": rng.choice(["stack", "replace", "discard"])}}
+        others = []
+        for _ in range(rng.choice([1, 1, 1, 2, 2, 3])):
+            o = self._any_box(rng, actor, exclude=b)
+            if o is not None and o not in others:
+                others.append(o)
+        if not others:
+            return None
+        how = rng.choice(["single", "single", "list", "tuple", "generator", "map"]) if len(others) == 1 else \
+            rng.choice(["list", "tuple", "generator", "map"])
+        if by and how == "single":
+            how = "list"
+        strategy = rng.choice(["stack", "stack", "replace", "discard", "silent", "warning", "error", "critical"])
+        step = {"op": "merge", "args": {"box": b, "others": others, "how": how, "strategy": strategy}}
+        if by:
+            step["out"] = [self._name()]
+        return step
 
     def _gen_or(self, actor, rng, val, flt):
         b = self._any_box(rng, actor)
@@ -1182,42 +1198,100 @@ class DataboxWorld(World):
         return "ok"
 
     def _do_merge(self, step, a):
-        h, o = a["box"], a["other"]
-        box, other = self.boxes[h], self.boxes[o]
+        """merge / by_merging of one or several databoxes, handed over as a databox, a list, a tuple or a one-shot
+        iterator, under every documented strategy: dictionary semantics, box after box, name after name."""
+        h = a["box"]
+        others_h = a["others"] if "others" in a else [a["other"]]
+        how = a.get("how", "single")
         strat = a["strategy"]
-        bs, bo = self.bind[h], self.bind[o]
-        want = {n: self._value_exp(x, fresh=False) for n, x in bs.items()}
-        for n, x in bo.items():
-            if n not in bs:
-                want[n] = self._value_exp(x, fresh=False)
+        bs = self.bind[h] if h is not None else {}
+        cur = {n: [x] for n, x in bs.items()}
+        dups = []
+        for o in others_h:
+            for n, x in self.bind[o].items():
+                if n not in cur:
+                    cur[n] = [x]
+                    continue
+                dups.append(n)
+                if strat == "replace":
+                    cur[n] = [x]
+                elif strat == "stack":
+                    cur[n] = cur[n] + [x]
+        want = {}
+        for n, xs in cur.items():
+            if len(xs) == 1:
+                want[n] = self._value_exp(xs[0], fresh=False)
                 continue
-            if strat == "discard":
-                continue
-            if strat == "replace":
-                want[n] = self._value_exp(x, fresh=False)
-                continue
-            # stack
-            if x[0] == "s":
-                if bs[n][0] != "s":
-                    return "skipped"     # stacking a series onto a scalar: unspecified
-                ms, mo = self.heap[bs[n][1]][1], self.heap[x[1]][1]
-                if ms.lo is not None and mo.lo is not None and ms.freq != mo.freq:
+            if all(x[0] == "s" for x in xs):
+                ms = [self.heap[x[1]][1] for x in xs]
+                if len({m.freq for m in ms if m.lo is not None}) > 1:
                     return "skipped"     # rejected by the implementation; not judged here
-                e = sm.t_hstack(ms, [mo])
+                e = sm.t_hstack(ms[0], ms[1:])
                 e.tight = False
                 want[n] = ("s", e, "any")
+            elif all(x[0] == "v" for x in xs):
+                flat = []
+                for x in xs:
+                    flat += list(x[1]) if isinstance(x[1], tuple) else [x[1]]
+                want[n] = ("v", tuple(flat))
             else:
-                if bs[n][0] == "s":
-                    return "skipped"
-                left = list(bs[n][1]) if isinstance(bs[n][1], tuple) else [bs[n][1]]
-                right = list(x[1]) if isinstance(x[1], tuple) else [x[1]]
-                want[n] = ("v", tuple(left + right))
-        opname = "merge." + strat
-        status, r, _ = self._run(opname, "", lambda: box.merge(other, strat))
-        self._crash_guard(opname, "", status, r)
-        self._expect_box(opname, "", box, want, what="receiver")
-        self._check_heap(opname, "")
-        self._check_bindings_unchanged(opname, "", exclude=(h,))
+                return "skipped"         # stacking a series onto a scalar or the reverse: unspecified
+        others = [self.boxes[o] for o in others_h]
+        if how == "single":
+            arg = lambda: others[0]
+        elif how == "list":
+            arg = lambda: list(others)
+        elif how == "tuple":
+            arg = lambda: tuple(others)
+        elif how == "generator":
+            arg = lambda: (x for x in others)
+        else:
+            arg = lambda: map(lambda x: x, others)
+        if how in ("generator", "map"):
+            self.probes["merge_one_shot_iterable"] += 1
+        if len(others) > 1:
+            self.probes["merge_several_boxes"] += 1
+        opname = ("by_merging." if h is None else "merge.") + strat
+        pred = how if how in ("generator", "map") else ""
+        if h is None:
+            status, r, _ = self._run(opname, pred, lambda: ir.Databox.by_merging(arg(), strat))
+        else:
+            box = self.boxes[h]
+            status, r, _ = self._run(opname, pred, lambda: box.merge(arg(), strat))
+        if strat in ("error", "critical") and dups:
+            # documented to raise; what a rejected merge leaves behind is open, except that nothing the receiver held
+            # may change and nothing may appear that the others did not offer
+            self.probes["merge_rejected_for_duplicates"] += 1
+            if status == "ok":
+                raise Violation("refine", opname, "duplicates", "", f"duplicate names {sorted(set(dups))[:4]} were not rejected under merge_strategy={strat!r}")
+            if h is None:
+                self._check_heap(opname, pred)
+                self._check_bindings_unchanged(opname, pred)
+                return "rejected"
+            box = self.boxes[h]
+            partial = {n: w for n, w in want.items() if n in bs or n in box.keys()}
+            self._expect_box(opname, pred, box, partial, what="receiver of the rejected merge")
+            self._check_heap(opname, pred)
+            self._check_bindings_unchanged(opname, pred, exclude=(h,))
+            self._rederive()
+            return "rejected"
+        self._crash_guard(opname, pred, status, r)
+        if h is None:
+            if not isinstance(r, ir.Databox):
+                raise Violation("refine", opname, pred, "", f"by_merging returned {type(r).__name__}")
+            for hh, b in self.boxes.items():
+                if b is r:
+                    raise Violation("alias", opname, pred, "", f"by_merging returned the live databox {hh}")
+            self._expect_box(opname, pred, r, want, what="result")
+            self._check_heap(opname, pred)
+            self._check_bindings_unchanged(opname, pred)
+            self.boxes[step["out"][0]] = r
+            self.owner[step["out"][0]] = step.get("actor", "a0")
+            self._rederive()
+            return "ok"
+        self._expect_box(opname, pred, box, want, what="receiver")
+        self._check_heap(opname, pred)
+        self._check_bindings_unchanged(opname, pred, exclude=(h,))
         self._rederive()
         return "ok"
 
